@@ -11,6 +11,7 @@ decision core is proved, including witnesses for the two places where the core i
 -/
 import NGF.Model.StatusPrep
 import NGF.Model.StatusJudge
+import NGF.Model.HandlerStatus
 import NGF.Proofs.StatusPrep
 import NGF.Proofs.StatusPrepExpected
 import NGF.Generated.ConditionFacts
@@ -444,6 +445,100 @@ example : (preparePolicy "c" ⟨"ClientSettingsPolicy", "n", "p", 3, [],
 
 end NGF.StatusPrep
 
+/-! ## the handler: the reload result that reaches status preparation (`NGF.Model.HandlerStatus`) -/
+namespace NGF.HandlerStatus
+open NGF.StatusPrep
+
+/-- For every change type that applies something, a failing apply (files, reload, or Plus upstream update) is what
+`updateStatuses` receives and what `latestReloadResult` keeps. -/
+theorem failure_surfaces_for_every_change_type (plus : Bool) (s : HState) (ct : ChangeType) (o : Outcome)
+    (hct : ct ≠ .noChange) (hfail : applyErr plus ct o = true) :
+    (step plus s ct o).2 = some true ∧ (step plus s ct o).1.latestErr = true ∧ (step plus s ct o).1.lastFail = true := by
+  cases ct with
+  | noChange => exact absurd rfl hct
+  | endpointsOnly => simp [step, hfail]
+  | clusterState => simp [step, hfail]
+
+/-- … and what the statuses written after such a batch say, for every graph summary: nothing is Programmed=True
+and no route parent is Accepted=True. -/
+theorem failed_batch_statuses (plus : Bool) (s : HState) (ct : ChangeType) (o : Outcome) (su : Summary)
+    (hct : ct ≠ .noChange) (hfail : applyErr plus ct o = true) (hwf : su.wf = true) :
+    ∃ e, (step plus s ct o).2 = some e ∧
+      (prepare { su with reloadErr := e }).noProgrammedTrue = true ∧
+      ∀ r ∈ su.routes, ∀ ref ∈ r.parentRefs, acceptedTrue r.conds e ref = false := by
+  refine ⟨true, (failure_surfaces_for_every_change_type plus s ct o hct hfail).1, ?_, ?_⟩
+  · exact reload_failed_nothing_programmed { su with reloadErr := true } rfl (by simpa [Summary.wf] using hwf)
+  · intro r _ ref _
+    exact (reload_failed_route_not_accepted "c" r.conds 0 ref).2
+
+theorem success_clears (plus : Bool) (s : HState) (ct : ChangeType) (o : Outcome)
+    (hct : ct ≠ .noChange) (hok : applyErr plus ct o = false) :
+    (step plus s ct o).2 = some false ∧ (step plus s ct o).1.latestErr = false := by
+  cases ct with
+  | noChange => exact absurd rfl hct
+  | endpointsOnly => simp [step, hok]
+  | clusterState => simp [step, hok]
+
+/-- a batch without changes neither touches the recorded result nor issues statuses -/
+theorem nochange_is_silent (plus : Bool) (s : HState) (o : Outcome) : step plus s .noChange o = (s, none) := rfl
+
+/-- each failure kind is a failure for each applying change type where it is exercised -/
+theorem applyErr_cases (plus : Bool) (o : Outcome) :
+    (applyErr plus .clusterState o = (!o.writeOk || !o.reloadOk || (plus && !o.apiOk))) ∧
+    (applyErr false .endpointsOnly o = (!o.writeOk || !o.reloadOk)) ∧
+    (applyErr true .endpointsOnly o = !o.apiOk) := by
+  obtain ⟨w, r, a⟩ := o
+  cases plus <;> cases w <;> cases r <;> cases a <;> simp [applyErr, nginxConfErr, upstreamsErr]
+
+/-- the recorded result is always the failure of the last apply … -/
+theorem latestErr_is_lastFail (plus : Bool) (bs : List (ChangeType × Outcome)) (s : HState)
+    (h : s.latestErr = s.lastFail) : (run plus s bs).latestErr = (run plus s bs).lastFail := by
+  induction bs generalizing s with
+  | nil => exact h
+  | cons b rest ih =>
+    obtain ⟨ct, o⟩ := b
+    apply ih
+    cases ct <;> simp [step, h]
+
+/-- … and without NGINX Plus that is the truth for every batch history: the handler reports a failure exactly
+when NGINX does not run the last applied configuration. -/
+theorem oss_reload_result_is_truth (bs : List (ChangeType × Outcome)) :
+    (run false init bs).latestErr = (run false init bs).failed := by
+  have key : ∀ (bs : List (ChangeType × Outcome)) (s : HState),
+      s.latestErr = s.lastFail → s.stale = s.lastFail →
+      (run false s bs).latestErr = (run false s bs).lastFail ∧ (run false s bs).stale = (run false s bs).lastFail := by
+    intro bs
+    induction bs with
+    | nil => intro s h1 h2; exact ⟨h1, h2⟩
+    | cons b rest ih =>
+      intro s h1 h2
+      obtain ⟨ct, o⟩ := b
+      apply ih
+      · cases ct <;> simp [step, h1]
+      · cases ct <;>
+          simp [step, h2, fullApply, applyErr, nginxConfErr, upstreamsErr]
+  obtain ⟨h1, h2⟩ := key bs init rfl rfl
+  simp [HState.failed, h1, h2]
+
+/-- WITNESS (finding C07:…stale-after-plus-endpoints-only-update): with NGINX Plus, a cluster-state batch whose reload
+fails followed by an endpoints-only batch whose API update succeeds leaves `latestReloadResult` empty although
+NGINX never loaded the configuration — statuses turn Programmed=True / Accepted=True. -/
+theorem plus_reports_success_while_stale :
+    let s := run true init [(.clusterState, ⟨true, false, true⟩), (.endpointsOnly, ⟨true, true, true⟩)]
+    s.latestErr = false ∧ s.failed = true := by decide
+
+/-- with Plus the recorded result is still the truth whenever the last full apply succeeded -/
+theorem plus_reload_result_partial (bs : List (ChangeType × Outcome)) (hfresh : (run true init bs).stale = false) :
+    (run true init bs).latestErr = (run true init bs).failed := by
+  have := latestErr_is_lastFail true bs init rfl
+  simp [HState.failed, hfresh, this]
+
+example : (step false init .endpointsOnly ⟨true, false, true⟩).2 = some true := by decide
+example : (step true init .endpointsOnly ⟨true, true, false⟩).2 = some true := by decide
+example : (step false init .clusterState ⟨false, true, true⟩).2 = some true := by decide
+
+end NGF.HandlerStatus
+
 /-! ## the independent binding oracle of the judge: sanity theorems -/
 namespace NGF.StatusJudge
 
@@ -554,5 +649,11 @@ theorem facts_conditions_body :
     convertConditionsBody = Expected.convertConditionsBody := ⟨rfl, rfl⟩
 
 theorem facts_reload_error_branches : reloadErrorBranches = Expected.reloadErrorBranches := rfl
+
+/-- HandleEventBatch assigns the error of every applying case to the one `err` that becomes
+`latestReloadResult` (a shadowed `err` in a case would be a different text) -/
+theorem facts_handler_body :
+    handleEventBatchBody = Expected.handleEventBatchBody ∧
+    updateNginxConfBody = Expected.updateNginxConfBody := ⟨rfl, rfl⟩
 
 end NGF.StatusPrep
